@@ -34,7 +34,7 @@ man = {
               "source_commits": [], "add_only": True},
     "engines": [{"name": "coq-proof+correspondence", "path": "/verif/check",
                  "serves_properties": sorted(claimed),
-                 "kind_free_text": "Coq 8.16 theorems about an executable Gallina model (coq/), kernels regenerated from the Python source by translator/py2coq.py on every run, hand-written model parts tied by differential runs of the extracted OCaml runner against lcm (harness/)"}],
+                 "kind_free_text": "Coq 8.16 theorems about an executable Gallina model (coq/): kernels, control skeleton, Bellman operator, reductions, dispatchers and glue regenerated from the Python source by 18 fail-closed translators (translator/py2coq*.py) on every run and composed into end-to-end theorems (what solve returns is the specification's solution; every row of simulate is a feasible maximiser); hand-written model parts tied by differential runs of the extracted OCaml runner against lcm (harness/)"}],
     "checks": checks,
     "notes": claims.get("notes", ""),
     "not_applicable": na,
